@@ -380,6 +380,14 @@ func init() {
 			in.yield(nil, "Sched")
 			return nil
 		},
+		// FIPS 140 service indicator (goroutine-local bookkeeping of the standard library's crypto): irrelevant here
+		"crypto/internal/fips140.RecordApproved":    z,
+		"crypto/internal/fips140.RecordNonApproved": z,
+		rtPkg + ".Bounded": func(in *Interp, c *frame, fn *ssa.Function, a []Value) Value {
+			// input-controlled allocation is caught where it happens (MakeSlice / append): just run the body
+			in.call(c, nil, a[1], nil)
+			return nil
+		},
 		rtPkg + ".Atomic": func(in *Interp, c *frame, fn *ssa.Function, a []Value) Value {
 			// one step of harness bookkeeping: scheduling is switched off while it runs
 			on := in.sc.on
